@@ -1373,6 +1373,60 @@ fn gen_op(r: &mut Rng, g: &mut Gen, n_ck: u64, raw_mix: bool, mode: Mode) -> Op 
     }
 }
 
+/// The shape of history on which entity ids matter across a snapshot: 3-5 `emb:` keys (raw keys
+/// 5..9) with slab-dimension `_embedding`s of pairwise DISTINCT contents, sometimes a vector-engine
+/// key (`emb:e0..4`, an entity id without a slab entry) in front or among them, then one or two of
+/// the keys created EARLIER than a survivor deleted, one of them sometimes re-created with a new
+/// content.  Returns the statements and the number of slab keys alive at the end.
+fn gen_emb_prelude(r: &mut Rng) -> (Vec<Op>, usize) {
+    let mut keys: Vec<u64> = vec![5, 6, 7, 8, 9];
+    let mut vals: Vec<i64> = vec![-3, -2, -1, 1, 2, 3, 4];
+    // Fisher-Yates with the harness rng
+    for i in (1..keys.len()).rev() {
+        keys.swap(i, r.below(i as u64 + 1) as usize);
+    }
+    for i in (1..vals.len()).rev() {
+        vals.swap(i, r.below(i as u64 + 1) as usize);
+    }
+    let n = 3 + r.below(3) as usize;
+    let mut ops: Vec<Op> = vec![];
+    let mut created: Vec<Op> = vec![]; // the delete that undoes creation i
+    let vpos = if r.chance(1, 3) { Some(r.below(n as u64 - 1) as usize) } else { None };
+    for i in 0..n {
+        if vpos == Some(i) {
+            let vk = r.below(5);
+            ops.push(Op::VPut(vk, vec![1 + r.below(2) as i64, r.range(-2, 3), r.range(-2, 3)]));
+            created.push(Op::VDel(vk));
+        }
+        ops.push(Op::KPut(2, keys[i], r.range(-5, 5), Some(vals[i])));
+        created.push(Op::KDel(2, keys[i]));
+    }
+    // delete one or two creations that are not the last one
+    let mut alive = n;
+    let d1 = r.below(created.len() as u64 - 1) as usize;
+    ops.push(created[d1].clone());
+    let mut deleted = vec![d1];
+    if r.chance(1, 3) {
+        let d2 = r.below(created.len() as u64 - 1) as usize;
+        if d2 != d1 {
+            ops.push(created[d2].clone());
+            deleted.push(d2);
+        }
+    }
+    for d in &deleted {
+        if matches!(created[*d], Op::KDel(..)) {
+            alive -= 1;
+        }
+    }
+    if r.chance(1, 3) {
+        if let Op::KDel(_, k) = created[deleted[0]] {
+            ops.push(Op::KPut(2, k, r.range(-5, 5), Some(vals[5])));
+            alive += 1;
+        }
+    }
+    (ops, alive)
+}
+
 /// run one op list on a fresh real system + the model; returns true if everything agreed
 fn run_case(ctx: &mut Ctx, m: &mut Model, stream: &str, mode: Mode, max: usize, ops: &[Op], tss: &[u64], record: bool) -> (bool, bool) {
     let auto = mode == Mode::Auto || mode == Mode::AutoRet;
@@ -2032,6 +2086,25 @@ fn stream_router(ctx: &mut Ctx, m: &mut Model, rng: &Rng, cases: usize, mode: Mo
                 ctx.rep.hit("gen:shadow_pair_injected");
             }
         }
+        // entity ids across a checkpoint: in 1 case of 3 the case starts with several `emb:` keys
+        // holding slab-dimension vectors of DISTINCT contents (sometimes a vector-engine key among
+        // them), one or two of the earlier-created ones deleted (sometimes re-created, which moves the
+        // key to a fresh id), and a checkpoint; a rollback to it is put in a few statements later.
+        // The per-statement generator (3 emb keys, 1 statement in 60) almost never builds this.
+        if r.chance(1, 3) {
+            let (pre, _) = gen_emb_prelude(&mut r);
+            let plen = pre.len();
+            let mut all = pre;
+            all.push(Op::Ckpt(None));
+            all.extend(ops.drain(..));
+            ops = all;
+            n_ck += 1;
+            // the prelude's checkpoint is number 0 (created first); ROLLBACK TO its name or its id
+            let rest = ops.len() - plen - 1;
+            let q = plen + 1 + r.below(rest.min(8) as u64 + 1) as usize;
+            ops.insert(q, if r.chance(1, 3) { Op::Rollback(0) } else { Op::Rollback(NAME0) });
+            ctx.rep.hit("gen:emb_ids_prelude");
+        }
         // harness clock: non-decreasing, ties with probability 1/3 (manager mode only matters)
         let mut tss = vec![];
         let mut t = 100u64;
@@ -2505,6 +2578,8 @@ fn stream_mdslab(ctx: &mut Ctx, m: &mut Model, rng: &Rng, cases: usize) {
 fn stream_witness(ctx: &mut Ctx, m: &mut Model) {
     const CK: Op = Op::Ckpt(None);
     let rb = |n: u64| Op::Rollback(NAME0 + n);
+    // `emb:e<k>` with scalar field x = k and a slab-dimension `_embedding` of content e
+    let ke = |k: u64, e: i64| Op::KPut(2, k, k as i64, Some(e));
     let cases: Vec<(&str, Vec<Op>)> = vec![
         ("tables_lost", vec![Op::RCreate(0), Op::RIns(0, 1, 2), CK, rb(0), Op::RIns(0, 1, 1)]),
         ("tables_lost_indexed", vec![Op::RCreate(0), Op::RHidx(0), Op::RBidx(0), Op::RIns(0, 1, 2), CK, Op::RIns(0, 2, 0), rb(0)]),
@@ -2517,6 +2592,23 @@ fn stream_witness(ctx: &mut Ctx, m: &mut Model) {
         ("raw_roundtrip", vec![Op::KPut(0, 1, 5, None), Op::KPut(1, 1, 6, None), Op::KPut(2, 5, 7, Some(3)), Op::KPut(2, 6, 7, None), CK, Op::KDel(0, 1), Op::KDel(1, 1), Op::KPut(2, 5, 8, None), Op::KPut(2, 6, 1, Some(2)), rb(0)]),
         ("drop_then_rollback", vec![Op::RCreate(1), Op::RIns(1, 0, 0), CK, Op::RDrop(1), rb(0), Op::RCreate(1), Op::RDrop(1), Op::RCreate(1), Op::RIns(1, 3, 3)]),
         ("stale_btree_after_recreate", vec![CK, Op::RCreate(0), Op::RBidx(0), Op::RIns(0, 1, 1), Op::RIns(0, 2, 2), rb(0), Op::RCreate(0), Op::RBidx(0), Op::RIns(0, 3, 0)]),
+        // entity ids across a checkpoint: the embedding-slab part of a snapshot is keyed by entity id
+        // (= position of the `emb:` key in the entity index's append-only vocabulary), so the
+        // entity-index part has to bring every surviving key back under the id it had, whatever was
+        // deleted before it.  Shortest history first: four slab-dimension embeddings with distinct
+        // contents, the FIRST created one deleted, checkpoint, changes, rollback — every survivor must
+        // come back with its OWN vector.  Then the neighbours: a middle one deleted, two deleted,
+        // deleted and re-created (the key moves to a new id at the end of the vocabulary), a deleted
+        // vector-engine key (an `emb:` key with an entity id and no slab entry) in front of the slab
+        // keys, a delete on either side of two checkpoints, and a second rollback over the first
+        ("emb_ids_first_deleted", vec![ke(5, 1), ke(6, 2), ke(7, 3), ke(8, -2), Op::KDel(2, 5), CK, ke(6, -3), Op::KDel(2, 7), ke(9, 1), rb(0)]),
+        ("emb_ids_middle_deleted", vec![ke(5, 1), ke(6, 2), ke(7, 3), ke(8, -2), Op::KDel(2, 6), CK, Op::KDel(2, 8), rb(0), ke(9, 2)]),
+        ("emb_ids_two_deleted", vec![ke(5, 1), ke(6, 2), ke(7, 3), ke(8, -2), ke(9, -1), Op::KDel(2, 5), Op::KDel(2, 7), CK, ke(8, 3), rb(0)]),
+        ("emb_ids_deleted_and_recreated", vec![ke(5, 1), ke(6, 2), ke(7, 3), Op::KDel(2, 5), ke(5, -1), CK, Op::KDel(2, 6), ke(7, 2), rb(0)]),
+        ("emb_ids_vector_key_deleted", vec![Op::VPut(0, vec![1, 2, 3]), ke(5, 1), ke(6, 2), ke(7, 3), Op::VDel(0), CK, ke(5, 3), rb(0)]),
+        ("emb_ids_without_vector_deleted", vec![Op::KPut(2, 5, 4, None), ke(6, 2), ke(7, 3), ke(8, -1), Op::KDel(2, 5), CK, ke(6, 3), rb(0)]),
+        ("emb_ids_two_checkpoints", vec![ke(5, 1), ke(6, 2), ke(7, 3), Op::KDel(2, 5), CK, ke(8, -2), Op::KDel(2, 6), CK, ke(7, 1), rb(1), ke(9, 3), rb(0)]),
+        ("emb_ids_rollback_twice", vec![ke(5, 1), ke(6, 2), ke(7, 3), Op::KDel(2, 5), CK, ke(6, 3), rb(0), Op::KDel(2, 6), ke(8, 1), rb(0)]),
     ];
     for (name, ops) in cases {
         ctx.rep.hit(&format!("witness:{name}"));
@@ -2766,13 +2858,36 @@ fn stream_store_raw(ctx: &mut Ctx, m: &mut Model, rng: &Rng, cases: usize) {
             v.sort();
             v
         };
-        for _ in 0..len {
-            let w = r.below(10);
+        // entity ids across a snapshot: 1 case in 3 starts with the scripted shape (several `emb:`
+        // keys with slab-dimension vectors of distinct contents, earlier-created ones deleted,
+        // snapshot) and gets a restore of that snapshot a few statements later
+        let mut script: Vec<Option<Op>> = vec![];
+        if r.chance(1, 3) {
+            let (pre, _) = gen_emb_prelude(&mut r);
+            script = pre.into_iter().filter(|o| matches!(o, Op::KPut(..) | Op::KDel(..))).map(Some).collect();
+            script.push(Some(Op::Ckpt(None))); // = snapshot
+            for _ in 0..r.below(5) {
+                script.push(None); // a random statement
+            }
+            script.push(Some(Op::Rollback(0))); // = restore snapshot 0
+            ctx.rep.hit("raw:emb_ids_prelude");
+        }
+        script.reverse();
+        for _ in 0..len + script.len() as u64 {
+            let forced = script.pop().flatten();
+            let w = match &forced {
+                Some(Op::KPut(..)) => 0,
+                Some(Op::KDel(..)) => 6,
+                Some(Op::Ckpt(_)) => 8,
+                Some(_) => 9,
+                None => r.below(10),
+            };
             let (imp, line) = if w < 6 {
                 let cls = r.below(3);
                 let k = if cls == 0 { *r.pick(&fams) * 100 + r.below(3) } else { r.below(4) };
                 let x = r.range(-5, 5);
                 let e = if cls == 2 && r.chance(2, 3) { Some(r.range(-3, 3)) } else { None };
+                let (cls, k, x, e) = if let Some(Op::KPut(c, k, x, e)) = &forced { (*c, *k, *x, *e) } else { (cls, k, x, e) };
                 let mut t = TensorData::new();
                 t.set("x", TensorValue::Scalar(ScalarValue::Int(x)));
                 if let Some(e) = e {
@@ -2787,6 +2902,7 @@ fn stream_store_raw(ctx: &mut Ctx, m: &mut Model, rng: &Rng, cases: usize) {
             } else if w < 8 {
                 let cls = r.below(3);
                 let k = if cls == 0 { *r.pick(&fams) * 100 + r.below(3) } else { r.below(4) };
+                let (cls, k) = if let Some(Op::KDel(c, k)) = &forced { (*c, *k) } else { (cls, k) };
                 let imp = match store.delete(&Sys::raw_key(cls, k)) {
                     Ok(()) => "ok".to_string(),
                     Err(_) => "err notfound".to_string(),
@@ -2801,7 +2917,7 @@ fn stream_store_raw(ctx: &mut Ctx, m: &mut Model, rng: &Rng, cases: usize) {
                 ctx.rep.hit("raw:snapshot");
                 (format!("id {id}"), "snap".to_string())
             } else {
-                let id = r.below(snaps.len() as u64) as usize;
+                let id = if forced.is_some() { 0 } else { r.below(snaps.len() as u64) as usize };
                 let imp = match store.restore_from_bytes(&snaps[id].0) {
                     Ok(()) => "ok".to_string(),
                     Err(e) => format!("err other:{}", vname(&e)),
@@ -3205,7 +3321,7 @@ fn main() {
     ctx.rep.expected_branches = [
         "op:rcreate", "op:rdrop", "op:rins", "op:rdel", "op:rhidx", "op:rbidx", "op:gnode", "op:gedge", "op:gdeln",
         "op:gdele", "op:vput", "op:vdel", "op:vbuild", "op:kput", "op:kdel", "op:ckpt", "op:rollback",
-        "op:ckpt_named", "op:rollback_by_id", "op:ckdel", "op:cktop", "rollback:listed_id_also_a_name", "rollback:unlisted_id_by_name", "ckdel:listed_id_also_a_name", "gen:shadow_pair_injected",
+        "op:ckpt_named", "op:rollback_by_id", "op:ckdel", "op:cktop", "rollback:listed_id_also_a_name", "rollback:unlisted_id_by_name", "ckdel:listed_id_also_a_name", "gen:shadow_pair_injected", "gen:emb_ids_prelude", "raw:emb_ids_prelude",
         "rollback:by_shared_or_foreign_name", "blob_chunk:default", "blob_chunk:small_shared", "text_api:checked_after_rollback", "text_api:checked_at_checkpoint", "directed:dense_embedding", "directed:undecodable_image", "directed:dense_vector_engine_exact", "op:text_delete", "op:text_node_delete", "op:text_embed_delete", "auto_checkpoint:created", "op:ckpt_real", "op:ckall", "auto_checkpoint:at_retention_limit", "auto_checkpoint:evicted_one_at_limit", "create:at_retention_limit", "ckall:at_retention_limit", "autoret:no_tie_needed", "autoret:tie_regime", "slab:set", "slab:del", "slab:clear", "slab:compact", "slab:reload",
         "witness:shard_families", "rollback:full_key_set_compared", "rollback:full_key_set_with_older_checkpoint_blobs", "rollback:older_checkpoint_in_snapshot",
         "families:plain:", "families:user:", "families:order:", "families:Note:", "families:~tmp:", "families:Product:", "families:table:", "families:doc:", "families:item:", "families:/path:",
